@@ -5,6 +5,7 @@ Monitors: intersect of the four segment classes, bezier_intersections,
 Oracle  : the two curves' own points at the reported parameters must coincide; swap
           symmetry is decided on crossings (clusters of reported pairs), not on reports.
 """
+import cmath
 import math
 
 import numpy as np
@@ -28,11 +29,11 @@ ASSUMPTIONS = ['the segments\' own point() is the reference (C03/C04)',
 TIERS = {
     'quick': {'shards': 14, 'random': 5000, 'timeout': 900, 'min_cases': 3000, 'max_timeouts': 10,
               'require_branches': ['cfg:crossing', 'cfg:tangent', 'cfg:endpoint', 'cfg:near-miss', 'cfg:axis-aligned',
-                                   'cfg:paths', 'pair:Arc-Arc', 'pair:CubicBezier-CubicBezier', 'pair:Line-Arc',
+                                   'cfg:paths', 'cfg:ellipse-axis-line', 'paths:requery-after-edit', 'pair:Arc-Arc', 'pair:CubicBezier-CubicBezier', 'pair:Line-Arc',
                                    'reported>=1']},
     'thorough': {'shards': 14, 'random': 200000, 'timeout': 3400, 'min_cases': 100000, 'max_timeouts': 200,
                  'require_branches': ['cfg:crossing', 'cfg:tangent', 'cfg:endpoint', 'cfg:near-miss', 'cfg:axis-aligned',
-                                      'cfg:paths', 'pair:Arc-Arc', 'pair:CubicBezier-CubicBezier', 'pair:Line-Arc',
+                                      'cfg:paths', 'cfg:ellipse-axis-line', 'paths:requery-after-edit', 'pair:Arc-Arc', 'pair:CubicBezier-CubicBezier', 'pair:Line-Arc',
                                       'reported>=1']},
 }
 CASE_TIMEOUT = 20
@@ -284,6 +285,8 @@ def cases(ctx):
         ka, kb = kinds[i % 4], kinds[(i // 4) % 4]
         scale = 10.0 ** rng.uniform(-1, 3)
         cfg = rng.choice(['crossing', 'crossing', 'tangent', 'endpoint', 'random', 'near-miss', 'axis-aligned', 'paths'])
+        if rng.random() < 0.05:
+            cfg = 'ellipse-axis-line'
         simple = (ka == 'A' and kb == 'A' and rng.random() < 0.7)
         if cfg in ('crossing', 'near-miss', 'endpoint'):
             made = I.make_crossing(rng, ka, kb, scale, simple_arcs=simple)
@@ -321,6 +324,30 @@ def cases(ctx):
             sa = I.rand_seg_spec(rng, ka, scale, 0j, simple)
             sb = I.rand_seg_spec(rng, kb, scale, gen.scaled_point(rng, scale * 0.5), simple)
             yield {'kind': 'pair', 'a': sa, 'b': sb, 'cls': ['cfg:random', 'pair:%s%s' % (ka, kb)]}
+        elif cfg == 'ellipse-axis-line':
+            # an exactly vertical or horizontal line through an unrotated (0 / 90 / 180 degrees) elliptical arc
+            c = gen.scaled_point(rng, scale)
+            rx, ry = scale * rng.uniform(0.3, 2), scale * rng.uniform(0.3, 2)
+            rot = rng.choice([0, 0, 0.0, 90, 180, -90])
+            a0 = rng.uniform(0, 2 * math.pi)
+            a1 = a0 + rng.uniform(0.5, 1.9) * math.pi
+            w = cmath.exp(1j * math.radians(rot))
+
+            def on(th):
+                return c + w * complex(rx * math.cos(th), ry * math.sin(th))
+            st, en = on(a0), on(a1)
+            sa = ['A', [st.real, st.imag], [rx, ry], rot, (a1 - a0) > math.pi, True, [en.real, en.imag]]
+            mid = on(rng.uniform(a0, a1))
+            ext = 3 * max(rx, ry)
+            if rng.random() < 0.5:
+                sb = ['L', [mid.real, c.imag - ext], [mid.real, c.imag + ext]]
+            else:
+                sb = ['L', [c.real - ext, mid.imag], [c.real + ext, mid.imag]]
+            if rng.random() < 0.5:
+                sb = ['L', sb[2], sb[1]]
+            if rng.random() < 0.5:
+                sa, sb = sb, sa
+            yield {'kind': 'pair', 'a': sa, 'b': sb, 'cls': ['cfg:ellipse-axis-line', 'pair:AL']}
         elif cfg == 'axis-aligned':
             # straight "curves" with collinear control points, as editors emit for straight C/Q commands
             x0, y0 = rng.uniform(-scale, scale), rng.uniform(-scale, scale)
@@ -366,7 +393,17 @@ def run_case(ctx, case):
         if p1 == p2:
             raise core.Skip('equal paths')
         try:
-            p1.intersect(p2)
+            first = p1.intersect(p2)
+            # the same query after an edit that keeps the number of segments (T1/T2 must follow the new
+            # length fractions): replace a curved segment by its chord, or move the path's start
+            k = next((i for i, s in enumerate(p1) if type(s).__name__ != 'Line'), None)
+            if k is not None:
+                p1[k] = P.Line(p1[k].start, p1[k].end)
+            else:
+                p1[0] = P.Line(p1[0].start - (p1[0].end - p1[0].start) * 3, p1[0].end)
+            second = p1.intersect(p2)
+            if first and second:
+                ctx.branch('paths:requery-after-edit')
         except Exception as e:   # noqa
             if any(type(s).__name__ == 'Arc' for s in list(p1) + list(p2)):
                 ctx.note('path_intersect_with_arcs_raised')
